@@ -125,6 +125,17 @@ def run_cls(case, bus, ex):
     bus.judge("result_dtype", 0.0 if ok else 1.0, 0.5, sig, sample=dict(info, dtypes=[str(u.dtype), str(o.dtype), str(oh.dtype)]), witness=dict(info, dtypes=[str(u.dtype), str(o.dtype), str(oh.dtype)], expected=[fdt, fdt, cdt]))
     tr = ex.rollout(st, 2)(u)
     bus.judge("result_dtype", 0.0 if str(tr.dtype) == fdt else 1.0, 0.5, sig + ("rollout",), witness=dict(info, dtype=str(tr.dtype)))
+    # states that arrive in another dtype (an integer mask, a float32 array loaded from disk in an x64 session) still give results in the session's
+    # float dtype - no silent fall back to the precision (or integer-ness) of the input - and the values of the step of the converted state
+    others = [("int32", jnp.asarray(np.round(2 * U[0]).astype(np.int32)))]
+    if x64:
+        others.append(("float32", jnp.asarray(U[0].astype(np.float32))))
+    for dn, v in others:
+        ov = st(v)
+        want = np.asarray(st(jnp.asarray(np.asarray(v), dtype=fdt)))
+        okv = str(ov.dtype) == fdt and ov.shape == v.shape
+        errv = float(np.max(np.abs(np.asarray(ov) - want))) / (float(np.max(np.abs(want))) + 1e-30) if okv and np.all(np.isfinite(want)) else (0.0 if okv else np.inf)
+        bus.judge("result_dtype", errv if okv else 1.0, 1e-5 if x64 else 1e-3, sig + ("state given as " + dn,), witness=dict(info, state_dtype=dn, result_dtype=str(ov.dtype), expected=fdt, rel_dev=errv))
     # zero state
     z = np.asarray(st(jnp.zeros_like(u)))
     forced = zoo.SPECS[name].get("forced") is True or (name == "generic.GeneralVorticityConvectionStepper" and it["kw"].get("injection_scale", 0.0) != 0.0)
